@@ -319,8 +319,8 @@ def ineqAdd (op : CmpOp) (x : Ineq) : Ineqs → Ineqs
   | [] => [(op, [x])]
   | (o, l) :: rest => if o == op then (o, l ++ [x]) :: rest else (o, l) :: ineqAdd op x rest
 
-/-- `_inequalities(body)`.  NB `not X > Y` (i.e. `X <= Y`) is filed under `<` with `(X, Y)` and `not X < Y` under
-`<` with `(Y, X)`. -/
+/-- `_inequalities(body)`: `not X >= Y` is filed under `<` with `(X, Y)` and `not X <= Y` under `<` with `(Y, X)`
+(the negated STRICT comparisons were filed there before the repair recorded as `fixed:` in known_findings.json). -/
 def inequalities : List BLit → Ineqs → Except String Ineqs
   | [], d => pure d
   | .lit (s, .cmp t gs) :: rest, d =>
@@ -330,9 +330,9 @@ def inequalities : List BLit → Ineqs → Except String Ineqs
       | .var a, .var b =>
         let l : Lit := (s, .cmp t gs)
         if (s == .pos && g.op == .ne) || (s == .neg && g.op == .eq) then inequalities rest (ineqAdd .ne (l, a, b) d)
-        else if (s == .pos && g.op == .lt) || (s == .neg && g.op == .gt) then
+        else if (s == .pos && g.op == .lt) || (s == .neg && g.op == .ge) then
           inequalities rest (ineqAdd .lt (l, a, b) d)
-        else if (s == .pos && g.op == .gt) || (s == .neg && g.op == .lt) then
+        else if (s == .pos && g.op == .gt) || (s == .neg && g.op == .le) then
           inequalities rest (ineqAdd .lt (l, b, a) d)
         else inequalities rest d
       | _, _ => inequalities rest d
@@ -652,6 +652,8 @@ def processElems (stm : Stm) : List BAggElem → DomState → Except String (Lis
   | [], st => pure ([], [], st)
   | (terms, cond) :: rest, st => do
     let gv ← stmGlobalVars stm
+    -- fix (known_findings.json `fixed:`): the variables of the element's tuple are used outside of the condition
+    let gv := vUnion gv (vOfList (terms.flatMap Term.vars))
     let (bundles, st) ← largestSymmetricGroup st (cond.map BLit.lit) gv (stmBody stm) true
     let cond' ← bundles.foldlM applyBundle (cond.map BLit.lit)
     let aux := bundles.flatMap (·.aux)
